@@ -34,6 +34,8 @@ def check(repo, rep, tier):
     rg.check_is_modifier(mod, rep, 'R3.2')
     rg.check_is_punct(mod, rep, 'R3.4')
     rg.check_is_type_raised(mod, rep, 'R3.4')
+    from .c13 import r_functor_builders
+    r_functor_builders(repo.module('depccg/cat.py'), rep, 'R3.1')     # the results of the composition rules are rebuilt with z.functor(l, r): it keeps z's own slash, `|` included
     labels = set()
     fns = combinator_functions(mod)
     for name, fn in fns:
